@@ -122,6 +122,24 @@ fn container_round_trips(tv: &TV) -> Result<(), String> {
     }
 }
 
+/// Deserialize from one of serde's value deserializers (a data format that hands the visitor a
+/// typed scalar whatever hint it was given): Ok(raw) or Err.
+fn value_decode<'de, D>(ty: Ty, d: D) -> Result<i64, String>
+where
+    D: serde::Deserializer<'de>,
+    D::Error: std::fmt::Display,
+{
+    use serde::Deserialize;
+    Ok(match ty {
+        Ty::Date => Date::deserialize(d).map_err(|e| e.to_string())?.days() as i64,
+        Ty::Time => Time::deserialize(d).map_err(|e| e.to_string())?.usecs(),
+        Ty::Timestamp => Timestamp::deserialize(d).map_err(|e| e.to_string())?.usecs(),
+        Ty::IntervalYM => IntervalYM::deserialize(d).map_err(|e| e.to_string())?.months() as i64,
+        Ty::IntervalDT => IntervalDT::deserialize(d).map_err(|e| e.to_string())?.usecs(),
+        Ty::OracleDate => OracleDate::deserialize(d).map_err(|e| e.to_string())?.usecs(),
+    })
+}
+
 fn bin_decode(ty: Ty, b: &[u8]) -> Result<i64, String> {
     Ok(match ty {
         Ty::Date => bincode::deserialize::<Date>(b).map_err(|e| e.to_string())?.days() as i64,
@@ -284,6 +302,67 @@ pub fn run(ctx: &mut Ctx) {
         }
     });
     ctx.require(&r, &["decoded_in_range", "rejected_out_of_range"]);
+
+    // typed scalars through serde's value deserializers: an integer of ANY width must decode to exactly
+    // that count (when in range) or fail; nothing else may yield an out-of-range / sub-second value
+    let ints: Vec<i128> = {
+        let mut v: Vec<i128> = vec![0, 1, -1, 5, 1_500_000, -1_500_000, 999_999, 1_000_000, 86_399_999_999, 86_400_000_000, i8::MAX as i128, i16::MAX as i128, i16::MIN as i128,
+            i32::MAX as i128, i32::MIN as i128, u32::MAX as i128, (1i128 << 32) + 5, (1i128 << 32) + 10, (1i128 << 33) - 7, i64::MAX as i128, i64::MIN as i128, u64::MAX as i128, u64::MAX as i128 - 999_999,
+            (1i128 << 63) + 1_000_000, rg::DATE_MAX, rg::DATE_MIN, rg::DATE_MAX + 1, rg::TS_MAX, rg::TS_MAX + 1, rg::TS_MIN, rg::TS_MIN - 1, rg::OD_MAX, rg::OD_MAX + 1, rg::YM_MAX, rg::YM_MAX + 1, -rg::YM_MAX - 1, rg::DT_MAX, rg::DT_MAX + 1, -rg::DT_MAX - 1];
+        v.sort();
+        v.dedup();
+        v
+    };
+    let ints_r = &ints;
+    let r = ctx.sweep_each("typed_scalars_through_value_deserializers", "integers of every width (i8..i64, u8..u64), floats, bools, unit, bytes, borrowed / owned strings handed over by serde's value deserializers, for each type: Ok(n) only for the exact in-range count, otherwise Err", ints.len() as u64 * 6, 8, |idx, acc| {
+        use serde::de::value::{Error as VE, *};
+        use serde::de::IntoDeserializer;
+        let ty = ALL_TYPES[(idx % 6) as usize];
+        let n = ints_r[(idx / 6) as usize];
+        acc.states += 1;
+        let mut outcomes: Vec<(&'static str, Result<Result<i64, String>, ()>)> = Vec::new();
+        macro_rules! try_int { ($t:ty, $name:expr) => { if let Ok(x) = <$t>::try_from(n) { let d: <$t as IntoDeserializer<'_, VE>>::Deserializer = x.into_deserializer(); outcomes.push(($name, guard(|| value_decode(ty, d)))); } }; }
+        try_int!(i8, "i8"); try_int!(i16, "i16"); try_int!(i32, "i32"); try_int!(i64, "i64"); try_int!(u8, "u8"); try_int!(u16, "u16"); try_int!(u32, "u32"); try_int!(u64, "u64");
+        for (name, got) in outcomes {
+            acc.t(1);
+            acc.traces += 1;
+            match got {
+                Ok(Ok(v)) => {
+                    if v as i128 == n && in_range(ty, n) { acc.cls("decoded_in_range") } else {
+                        acc.fail("C15:value-deserializer:integer-decodes-to-wrapped-or-out-of-range-value", idx, || (format!("{ty:?}::deserialize({n}{name}.into_deserializer())"), if in_range(ty, n) { format!("Ok({n}) or Err") } else { "Err".into() }, format!("Ok({v})"), String::new()));
+                    }
+                }
+                Ok(Err(_)) => { acc.cls("rejected"); acc.nontrivial += 1; }
+                Err(()) => acc.fail("C15:value-deserializer:panic", idx, || (format!("{ty:?}::deserialize({n}{name}.into_deserializer())"), "value or error".into(), "panic".into(), String::new())),
+            }
+        }
+        if idx < 6 {
+            // non-integer scalars: whatever comes back must be a valid value of the type
+            let mut others: Vec<(&'static str, Result<Result<i64, String>, ()>)> = Vec::new();
+            others.push(("f64", guard(|| value_decode(ty, F64Deserializer::<VE>::new(1.5e6)))));
+            others.push(("bool", guard(|| value_decode(ty, BoolDeserializer::<VE>::new(true)))));
+            others.push(("unit", guard(|| value_decode(ty, UnitDeserializer::<VE>::new()))));
+            others.push(("char", guard(|| value_decode(ty, CharDeserializer::<VE>::new('1')))));
+            for b in [&b""[..], &[0u8; 7][..], &[120, 121, 4, 22, 1, 1, 1][..], &[0xffu8; 8][..], &[1u8, 0, 0, 0][..], &[0x60, 0xe3, 0x16, 0, 0, 0, 0, 0][..]] {
+                others.push(("bytes", guard(|| value_decode(ty, BytesDeserializer::<VE>::new(b)))));
+                others.push(("borrowed bytes", guard(|| value_decode(ty, BorrowedBytesDeserializer::<VE>::new(b)))));
+            }
+            for sdoc in ["", "1", "1500000", "2021-04-22", "2021-04-22 13:07:09", "2021-04-22 13:07:09.123456", "13:07:09.123456", "+0001-05", "+01 02:03:04.000005"] {
+                others.push(("str", guard(|| value_decode(ty, StrDeserializer::<VE>::new(sdoc)))));
+                others.push(("borrowed str", guard(|| value_decode(ty, BorrowedStrDeserializer::<VE>::new(sdoc)))));
+                others.push(("string", guard(|| value_decode(ty, StringDeserializer::<VE>::new(sdoc.to_string())))));
+            }
+            for (name, got) in others {
+                acc.t(1);
+                match got {
+                    Ok(Ok(v)) => { if in_range(ty, v as i128) { acc.cls("decoded_in_range") } else { acc.fail("C15:value-deserializer:yields-out-of-range-value", idx, || (format!("{ty:?}::deserialize(<{name}>)"), "Err or an in-range value".into(), format!("Ok({v})"), String::new())) } }
+                    Ok(Err(_)) => acc.cls("rejected"),
+                    Err(()) => acc.fail("C15:value-deserializer:panic", idx, || (format!("{ty:?}::deserialize(<{name}>)"), "value or error".into(), "panic".into(), String::new())),
+                }
+            }
+        }
+    });
+    ctx.require(&r, &["rejected"]);
 
     // JSON: complete single-edit neighbourhood of canonical strings
     let symbols: Vec<&str> = vec!["0", "1", "2", "3", "5", "9", "-", "+", ":", ".", " ", "T", "/", ",", "A", "e", "x", "\\\\", "\\u00e9", ""];
